@@ -148,7 +148,7 @@ CalcFindings(T, ns, j, mid, post) ==
       r \in UNION { LET ss == SeriesOf(T.ind[n])
                     IN { <<SeriesCheck(ss[q], mid, post, i), ss[q].name, i>> :
                             q \in 1..Len(ss), i \in 1..Len(post) }
-                  : n \in {n \in ns : T.ind[n].mg = j /\ T.ind[n].kind # "Amorph"} } }
+                  : n \in {n \in ns : T.ind[n].mg = j} } }
 
 \* calculate_index: the series of the targets at one position are recomputed; they must
 \* match their layer function and reproduce what was there; nothing else may change
@@ -165,7 +165,7 @@ ReindexFindings(T, ns, j, pre, post, pos) ==
                                    ELSE IF ~SameV(o, StoredAt(pre[pos], s)) THEN "reindex_differs"
                                    ELSE IF m = "unchecked" THEN "unchecked" ELSE "ok", s.name>>
                               : q \in 1..Len(ss) }
-                       : n \in {n \in ns : T.ind[n].mg = j /\ T.ind[n].kind # "Amorph"} } }
+                       : n \in {n \in ns : T.ind[n].mg = j} } }
        \cup { <<"reindex_elsewhere", j, "", i>> :
                 i \in {i \in 1..Len(post) : i # pos /\ (~KVSame(pre[i].ind, post[i].ind)
                                                         \/ ~KVSame(pre[i].sub, post[i].sub))} }
@@ -305,8 +305,27 @@ SameR(a, b) ==
   ELSE IF a.t = "q" /\ ~IsObs(b) THEN a.n = b.n /\ a.d = b.d
   ELSE SameV(a, b)
 
+\* analysis functions called directly on a candle list (C16, C17): the observed result must be
+\* one of the results the specification allows for that candle
+AnalysisVerdict(post, q) ==
+  LET alts == Eval(post[q.j], [fn |-> q.fn, a |-> q.a, b |-> q.b, len |-> q.len, i |-> q.i])
+  IN IF \E k \in 1..Len(alts) : alts[k].t = "nar" THEN "unchecked"
+     ELSE IF \E k \in 1..Len(alts) : SameR(q.r, alts[k]) THEN "ok"
+     ELSE "an_" \o q.var \o "_" \o q.fn
+
+\* a candle's own shape (C17): |open-close|, high-max(open,close), min(open,close)-low, high-low
+GeoVerdict(post, q) ==
+  LET g == Geometry(post[q.j][q.i + 1])
+      num(f, x) == LET v == DictField(q.r, f) IN v.t = "q" /\ v.x = 1 /\ <<v.n, v.d>> = x
+      boo(f, x) == LET v == DictField(q.r, f) IN v.t = "b" /\ v.b = x
+  IN IF q.r.t = "d" /\ num("body", g.body) /\ num("upper", g.upper) /\ num("lower", g.lower)
+        /\ num("range", g.range) /\ boo("pos", g.pos) /\ boo("neg", g.neg)
+     THEN "ok" ELSE "geo_shape"
+
 ReadFindings(T, e, post) ==
-  { <<IF SameR(e.rd[q].r, Expected(T, post, e.rd[q])) THEN "ok" ELSE "read_" \o e.rd[q].w,
+  { <<IF e.rd[q].w = "an" THEN AnalysisVerdict(post, e.rd[q])
+      ELSE IF e.rd[q].w = "geo" THEN GeoVerdict(post, e.rd[q])
+      ELSE IF SameR(e.rd[q].r, Expected(T, post, e.rd[q])) THEN "ok" ELSE "read_" \o e.rd[q].w,
       MaxI(e.rd[q].j, 1), e.rd[q].n.n, e.rd[q].i>> : q \in 1..Len(e.rd) }
   \cup (IF Len(e.rd) > 0 THEN {<<"ok", 1, "reads", 0>>} ELSE {})
 
